@@ -1,5 +1,6 @@
 import PoseVerif.Model.PoseOps
 import PoseVerif.Model.Spatial
+import PoseVerif.Model.Interp
 import PoseVerif.Driver.Masked
 /-! Driver: pose-body operations on the three backends (Float scalars; flat JSON ↔ nested arrays). -/
 namespace PoseVerif.Driver
@@ -59,6 +60,7 @@ def runBodyOps (j : Json) : R Json := do
           out := out.push (Json.mkObj [("dimensions", Json.arr #[natJ w, natJ h, natJ d])])
           pure (some b')
         | none => pure none
+      | "interpolate" => do pure (interpolateBody floatScalar floatIsZero (← f64OfJson (← op.getObjVal? "new_fps")) (← getNat op "new_frames") b)
       | "flatten" =>
         out := out.push (Json.mkObj [("rows", Json.arr ((flattenBody floatScalar floatIsZero b).toArray.map fun r => Json.arr (r.toArray.map f64J)))])
         pure (some b)
